@@ -83,6 +83,11 @@ POOL += [
     ("a = f'{gamma=}'; é = 1\n", "file:a.xsh", None),
     ("bb = 2 +\n", "file:a.xsh", None),
     ("x = 1\ny = 'é' + z\n", "file:b.xsh", None),
+    # two errors that a pass over the finished tree would both find: which one is reported must not depend on the order in
+    # which a set or dict of nodes happens to be walked (addresses vary with what was allocated before)
+    ("d = x² + y³\n", "exec", None),
+    ("from units import m², m³\n", "exec", None),
+    ("def norm(v): return (v.x² + v.y² + v.z²) ** 0.5\n", "exec", None),
 ]
 N_STATIC = len(POOL)  # entries after this index are the 'deep' inputs appended by expected()
 
